@@ -131,6 +131,18 @@ Theorem C01_gate_physical_exact_iff : forall (F : OF) (st : F) flag d (sd : F) B
 Proof. exact gate_physical_exact_iff. Qed.
 Print Assumptions C01_gate_physical_exact_iff.
 
+(* link to C06 (C06_kraus_form_is_cp: for every Kraus-form map, hermitian (Choi) /\ PSD (embed Choi)): the CP verdict is true for every such
+   map at every tolerance >= 0, and at tolerance 0 the CP verdict IS "PSD (embed Choi)" *)
+Theorem C01_gate_is_cp_of_embed_psd : forall (F : OF) d B (HS : rmat F) (atol : F), basis_hermitian d B -> kle F (c0 F) atol ->
+  PSD F (d * d + d * d) (embed F (d * d) (choi_of_hs d B HS)) -> gate_is_cp d B HS atol = true.
+Proof. exact gate_is_cp_of_embed_psd. Qed.
+Print Assumptions C01_gate_is_cp_of_embed_psd.
+
+Theorem C01_gate_is_cp_0_iff_embed_psd : forall (F : OF) d B (HS : rmat F), basis_hermitian d B ->
+  (gate_is_cp d B HS (c0 F) = true <-> PSD F (d * d + d * d) (embed F (d * d) (choi_of_hs d B HS))).
+Proof. exact gate_is_cp_0_iff_embed_psd. Qed.
+Print Assumptions C01_gate_is_cp_0_iff_embed_psd.
+
 (* MProcess.is_physical: the SUM of the outcome maps trace preserving within atol_eq, every outcome completely positive within atol_ineq *)
 Theorem C01_mprocess_is_physical_iff : forall (F : OF) (st : F) d B m (hss : nat -> rmat F) aeq aineq,
   basis_hermitian d B -> kle F (c0 F) (resolve_atol st aineq) ->
